@@ -232,7 +232,8 @@ Mech(c) == /\ Agree(c, s')
            /\ gorder' = NormG(c.ord, c.g)
 
 Post(x) == [active |-> x.active, cap |-> x.cap, wq |-> x.wq]
-Log(e) == hist' = IF KeepHist THEN Append(hist, e @@ [post |-> Post(s')]) ELSE hist
+Log(e) == /\ IF MaxOps = 0 THEN TRUE ELSE Len(hist) <= MaxOps   \* bound on exported behaviours
+          /\ hist' = IF KeepHist THEN Append(hist, e @@ [post |-> Post(s')]) ELSE hist
 
 Acquire(q) ==
     /\ St(s, q) = "new"
@@ -293,9 +294,8 @@ Init == /\ \E c \in InitCaps : s = S0(c) /\ hist = << [a |-> "Init", cap |-> c] 
         /\ gorder = 0
         /\ nadj = 0
 
-Next == /\ IF MaxOps = 0 THEN TRUE ELSE Len(hist) <= MaxOps
-        /\ \/ \E q \in Queries : Acquire(q) \/ CancelWake(q) \/ CancelCS(q) \/ Wake(q) \/ Release(q)
-           \/ \E n \in Caps : Adjust(n)
+Next == \/ \E q \in Queries : Acquire(q) \/ CancelWake(q) \/ CancelCS(q) \/ Wake(q) \/ Release(q)
+        \/ \E n \in Caps : Adjust(n)
 
 Spec == Init /\ [][Next]_vars
 
